@@ -84,6 +84,16 @@ REQUIRED_PROBES = ['write_thermdat', 'read_thermdat', '_write_line1', '_write_li
                    '_write_line4', '_insert_space', '_read_line1', '_read_line2', '_read_line3',
                    '_read_line4', '_read_line_num', '_is_temperature_header']
 ASSUMPTIONS = [
+    'character set: names, notes, comments and supplementary text are ASCII (33-126 for names).  Non-ASCII '
+    'printable characters (Latin-1 supplement, Greek, sub/superscripts, CJK) are outside the quantifier as this '
+    'monitor reads it, because the statement cannot hold for them on the unchanged tree in ANY locale: '
+    'write_thermdat / read_thermdat call open() without encoding=, so (i) under a UTF-8 locale such a name '
+    'round-trips through pMuTT but every multi-byte character pushes the rest of record 1 to the right on disk '
+    '(record 1 is 81-82 BYTES, the record number is not in byte column 80, the layout clause fails for any '
+    'byte-counting Chemkin reader), (ii) under an ASCII locale (LC_ALL=C, PYTHONUTF8=0, PYTHONCOERCECLOCALE=0) '
+    'writing raises UnicodeEncodeError and leaves an empty file for every non-ASCII name, (iii) under a Latin-1 '
+    'locale the same happens for characters above U+00FF.  No assertion about such names holds for every locale, '
+    'so none is made; the directed telemetry case records what this platform does (extra: non_ascii_*)',
     'names: 1-15 ASCII printable non-blank characters, not starting with "!" (Chemkin comment marker), '
     'unique inside one file, never exactly END or THERMO (upper case); other Chemkin keywords (REACTIONS, ELEMENTS, '
     'SPECIES, SITE, BULK, TRANSPORT, ALL, NASA ... and their 4-letter forms) may start, occur in or be the whole '
@@ -712,6 +722,9 @@ def directed(tier):
     D.append(F([gen_species(rng, nm) for nm in names], read_format='tuple',
                supp=[dict(gen_supp(rng, 0))], supp_txt='! forty species'))
     D[-1]['supp_newline'] = False
+    # telemetry only (no oracle): non-ASCII names on disk; the ordinary checks run on the ASCII species
+    D.append(F([CH4, OK]))
+    D[-1]['telemetry'] = 'non_ascii_names'
     # histories: every kind, every (format, format2) pair for the re-read, single edits and all edits
     k = 0
     for kind in ('reread', 'rewrite', 'paths', 'derive'):
@@ -1284,8 +1297,40 @@ def _l3_indices(n):
 
 
 # ---------------------------------------------------------------- driver
+NON_ASCII_NAMES = ['\u00c5-phase', '\u00e9\u00b0', '\u03b1-SiO2', '\u03b3-Al2O3', 'SiO\u2082(l)', 'H\u00b2',
+                   '\u6c34', 'a\u0301']
+
+
+def telemetry_non_ascii(ctx):
+    """Not an oracle: what this tree, on this platform's locale encoding, does with names
+    outside ASCII when the file goes to disk (see ASSUMPTIONS)."""
+    import locale
+    from pmutt.io.thermdat import write_thermdat, read_thermdat
+    out = collections.Counter()
+    for k, nm in enumerate(NON_ASCII_NAMES):
+        p = os.path.join(ctx.tmpdir, 'c05_nonascii_%d.dat' % k)
+        try:
+            write_thermdat([build_sp(S(nm, [('Si', 1), ('O', 2)], phase='S'))], filename=p, write_date=False)
+            with open(p, 'rb') as f:
+                rec1 = f.read().split(b'\n')[2]
+            out['non_ascii_record1_not_80_bytes' if len(rec1) != 80 else 'non_ascii_record1_80_bytes'] += 1
+            back = read_thermdat(p)
+            out['non_ascii_read_back_same_name' if [b.name for b in back] == [nm] else
+                'non_ascii_read_back_differs'] += 1
+        except core.HarnessError:
+            raise
+        except Exception as e:
+            out['non_ascii_' + type(e).__name__] += 1
+        _cleanup(p)
+    for k, v in out.items():
+        ctx.extra[k] = ctx.extra.get(k, 0) + v
+    ctx.extra['locale_encoding_of_open()'] = locale.getpreferredencoding(False)
+
+
 def run_case(spec, ctx):
     from pmutt.io.thermdat import write_thermdat, read_thermdat
+    if spec.get('telemetry') == 'non_ascii_names':
+        telemetry_non_ascii(ctx)
     sps = spec['species']
     n = len(sps)
     supp = spec.get('supp') or []
